@@ -546,7 +546,7 @@ OPT_NAMES = ["force", "dry-run", "output", "format", "verbose-level", "all", "tr
 LEAF_NAMES = ["add", "remove", "list", "show"]
 ALIASES = ["ad", "rm", "ls", "sh", "cfg", "i", "up", "s2", "cc", "r", "bld", "e", "chk", "lk", "ex", "mk"]
 DEFAULTS = [["\"text\""], ["7"], ["1.5"], ["true"], ["false"], ["\"two", "words\""], ["\"" + "z" * 45 + "\""], ["0"], ["-3"], ['""']]
-LIST_DEFAULTS = [["[\"a\",", "\"b\"]"], ["[1,", "2,", "3]"], ["[\"only\"]"]]
+LIST_DEFAULTS = [["[\"a\",", "\"b\"]"], ["[1,", "2,", "3]"], ["[\"only\"]"], ["[0]"], ["[\"\"]"]]  # lists of one element too
 
 
 # descriptions are text, not format strings: braces of every kind (help texts, which *are* format strings with the
